@@ -472,52 +472,70 @@ class DataFrameSchemaBackend(PolarsSchemaBackend):
 
         lf_columns = get_lazyframe_column_names(obj)
 
-        try:
-            if schema.dtype is not None:
-                obj = getattr(schema.dtype, coerce_fn)(obj)
-            else:
-                for col_schema in schema.columns.values():
-                    if (
-                        not col_schema.regex
-                        and col_schema.name not in lf_columns
-                    ):
-                        # nothing to coerce: a missing required column is
-                        # reported by check_column_presence
-                        continue
+        def _try_coercion(dtype, data, context):
+            """Coerce, or collect the coercion error of this schema or column.
 
-                    if schema.coerce or col_schema.coerce:
-                        obj = getattr(col_schema.dtype, coerce_fn)(
-                            PolarsData(obj, col_schema.selector)
-                        )
-        except ParserError as exc:
-            error_handler.collect_error(
-                validation_type(SchemaErrorReason.DATATYPE_COERCION),
-                SchemaErrorReason.DATATYPE_COERCION,
-                SchemaError(
-                    schema=schema,
+            Every coercing column is attempted, so that the lazy report names
+            the uncoercible values of each of them under its own column.
+            """
+            try:
+                return getattr(dtype, coerce_fn)(data)
+            except ParserError as exc:
+                error = SchemaError(
+                    schema=context,
                     data=obj,
                     message=exc.args[0],
-                    check=f"coerce_dtype('{schema.dtypes}')",
+                    check=(
+                        f"coerce_dtype('{schema.dtypes}')"
+                        if context is schema
+                        else f"coerce_dtype('{dtype}')"
+                    ),
                     reason_code=SchemaErrorReason.DATATYPE_COERCION,
                     failure_cases=exc.failure_cases,
                     check_output=exc.parser_output,
-                ),
-            )
-        except pl.ComputeError as exc:
+                )
+            except pl.ComputeError as exc:
+                error = SchemaError(
+                    schema=context,
+                    data=obj,
+                    message=(
+                        f"Error while coercing '{context.name}' to type "
+                        f"{dtype}: {exc}"
+                    ),
+                    check=(
+                        f"coerce_dtype('{schema.dtypes}')"
+                        if context is schema
+                        else f"coerce_dtype('{dtype}')"
+                    ),
+                    reason_code=SchemaErrorReason.DATATYPE_COERCION,
+                )
             error_handler.collect_error(
                 validation_type(SchemaErrorReason.DATATYPE_COERCION),
                 SchemaErrorReason.DATATYPE_COERCION,
-                SchemaError(
-                    schema=schema,
-                    data=obj,
-                    message=(
-                        f"Error while coercing '{schema.name}' to type "
-                        f"{schema.dtype}: {exc}"
-                    ),
-                    check=f"coerce_dtype('{schema.dtypes}')",
-                    reason_code=SchemaErrorReason.DATATYPE_COERCION,
-                ),
+                error,
             )
+            return None
+
+        if schema.dtype is not None:
+            coerced = _try_coercion(schema.dtype, obj, schema)
+            obj = obj if coerced is None else coerced
+        else:
+            for col_schema in schema.columns.values():
+                if (
+                    not col_schema.regex
+                    and col_schema.name not in lf_columns
+                ):
+                    # nothing to coerce: a missing required column is
+                    # reported by check_column_presence
+                    continue
+
+                if schema.coerce or col_schema.coerce:
+                    coerced = _try_coercion(
+                        col_schema.dtype,
+                        PolarsData(obj, col_schema.selector),
+                        col_schema,
+                    )
+                    obj = obj if coerced is None else coerced
 
         if error_handler.collected_errors:
             raise SchemaErrors(
